@@ -11,30 +11,41 @@ From ZV Require Import Base.Prelude Model.Vng Proofs.VngProofs.
 From Coq Require Import Permutation.
 Local Open Scope N_scope.
 
-(* Whole object.  [order_sel] / [order_meta] are the two applications of
-   sortDict in the writer (selectors / stored entries): the round trip holds
-   whenever both are permutations and agree, for every dictionary bound that a
+(* Whole object.  [less t] is sortDict's order on the values of column type t
+   (value comparison, ties broken by the bytes: a strict total order);
+   [iter1] / [iter2] are the orders in which the two calls of makeDict happen to
+   iterate the Go map.  The round trip holds for every dictionary bound that a
    selector byte can address (the code uses MaxDictSize = 256). *)
 Theorem C03_vng_roundtrip :
-  forall (order_sel order_meta : dict -> dict),
-    (forall d, Permutation (order_sel d) d) ->
-    (forall d, order_meta d = order_sel d) ->
-    forall (vec : bool) (maxdict : nat) (small : tyid -> bool) (vs : list value),
-      (maxdict <= 256)%nat ->
-      obj_read vec (obj_encode order_sel order_meta maxdict small vs) = Some vs.
+  forall (less : tyid -> bytes -> bytes -> bool) (iter1 iter2 : dict -> dict)
+         (vec : bool) (maxdict : nat) (small : tyid -> bool) (vs : list value),
+    (forall t, strict_total (less t)) ->
+    (forall d, Permutation (iter1 d) d) -> (forall d, Permutation (iter2 d) d) ->
+    (maxdict <= 256)%nat ->
+    obj_read vec (obj_encode less iter1 iter2 maxdict small vs) = Some vs.
 Proof. exact vng_roundtrip. Qed.
 Print Assumptions C03_vng_roundtrip.
 
 (* One nullable column: any length, nulls anywhere, any number of distinct values. *)
 Theorem C03_column_roundtrip :
-  forall (order_sel order_meta : dict -> dict),
-    (forall d, Permutation (order_sel d) d) ->
-    (forall d, order_meta d = order_sel d) ->
-    forall (vec : bool) (maxdict : nat) (small : bool) (l : list body),
-      (maxdict <= 256)%nat ->
-      col_decode vec (col_encode order_sel order_meta maxdict small l) = Some l.
+  forall (less : bytes -> bytes -> bool) (iter1 iter2 : dict -> dict)
+         (vec : bool) (maxdict : nat) (small : bool) (l : list body),
+    strict_total less ->
+    (forall d, Permutation (iter1 d) d) -> (forall d, Permutation (iter2 d) d) ->
+    (maxdict <= 256)%nat ->
+    col_decode vec (col_encode less iter1 iter2 maxdict small l) = Some l.
 Proof. exact column_roundtrip. Qed.
 Print Assumptions C03_column_roundtrip.
+
+(* The two independent calls of makeDict (selectors / stored entries) build the
+   same dictionary whatever the map iteration orders: the order is total. *)
+Theorem C03_make_dict_deterministic :
+  forall (less : bytes -> bytes -> bool), strict_total less ->
+  forall (iter1 iter2 : dict -> dict),
+    (forall d, Permutation (iter1 d) d) -> (forall d, Permutation (iter2 d) d) ->
+    forall d, NoDup (keys d) -> make_dict less iter2 d = make_dict less iter1 d.
+Proof. exact make_dict_deterministic. Qed.
+Print Assumptions C03_make_dict_deterministic.
 
 (* Null run lengths: both decoders (NullsBuilder; vcache bitmap) return the
    null flags that were written, for every flag sequence with a null ... *)
@@ -62,22 +73,13 @@ Theorem C03_dict_kept_iff_few_distinct :
 Proof. exact dict_kept_iff_few_distinct. Qed.
 Print Assumptions C03_dict_kept_iff_few_distinct.
 
-(* The hypothesis [order_meta = order_sel] is essential: the model of the code
-   as it is (two independent sorts) loses the round trip on both read paths as
-   soon as the two orders differ -- witness: a float column holding -0 and +0,
-   which sortDict's comparison cannot tell apart. *)
-Theorem C03_roundtrip_refuted_when_dict_orders_differ :
-  exists order_sel order_meta : dict -> dict,
-    (forall d, Permutation (order_sel d) d) /\ (forall d, Permutation (order_meta d) d) /\
-    exists l : list body,
-      col_decode false (col_encode order_sel order_meta 256 false l) <> Some l /\
-      col_decode true (col_encode order_sel order_meta 256 false l) <> Some l.
-Proof. exact column_roundtrip_refuted_when_orders_differ. Qed.
-Print Assumptions C03_roundtrip_refuted_when_dict_orders_differ.
-
-(* The bound 256 is tight: 257 entries cannot be addressed by a selector byte. *)
-Theorem C03_dict_bound_tight :
-  prim_decode (prim_encode (fun d => d) (fun d => d) 256 false (distinct_vals 256)) = Some (distinct_vals 256) /\
-  prim_decode (prim_encode (fun d => d) (fun d => d) 257 false (distinct_vals 257)) <> Some (distinct_vals 257).
-Proof. exact (conj dict_256_entries_roundtrip dict_257_entries_break_roundtrip). Qed.
-Print Assumptions C03_dict_bound_tight.
+(* The hypotheses are satisfiable (the bytewise order is a strict total order)
+   and the bound 256 is tight: 257 entries cannot be addressed by a selector byte. *)
+Theorem C03_hypotheses_satisfiable_and_bound_tight :
+  strict_total bytes_ltb /\
+  prim_decode (prim_encode (make_dict bytes_ltb (fun d => d)) (make_dict bytes_ltb (@rev _)) 256 false (distinct_vals 256))
+    = Some (distinct_vals 256) /\
+  prim_decode (prim_encode (make_dict bytes_ltb (fun d => d)) (make_dict bytes_ltb (@rev _)) 257 false (distinct_vals 257))
+    <> Some (distinct_vals 257).
+Proof. exact (conj bytes_ltb_strict_total (conj dict_256_entries_roundtrip dict_257_entries_break_roundtrip)). Qed.
+Print Assumptions C03_hypotheses_satisfiable_and_bound_tight.
